@@ -668,6 +668,72 @@ def describe(t):
     return str(t)
 
 
+def stop_point_domain(ctx, prog):
+    """the stop-point arguments: the three setter methods are interpreted (sa.confinterp) over their whole small domains - at_round in
+    None, -2..18; after_step in -2..len(Steps)+1; at_des in None, -1..4 for each of the six key lengths - and must accept exactly
+    the documented values, map None to "the last round" / "the last pass of that key type", and hand every accepted value on
+    unchanged; encrypt / decrypt default to the last step (the complete cipher)."""
+    from .. import confinterp as cf
+    pc = prog.need_class(D, '_ParametricCipher')
+    steps = enumtab.enum_members(prog, D, 'Steps')
+    nsteps = len(steps)
+    n = 0
+    probs = []
+    und = None
+
+    def call(meth, *args):
+        it = cf.Interp(prog)
+        f = pc.methods.get(meth)
+        if f is None:
+            raise cf.Unknown(f'{meth} not found')
+        try:
+            return ('ok', it.call(f, args, {}, selfobj=cf.Obj(cls=pc)))
+        except cf.Raised as e:
+            return ('raise', e.kind)
+    try:
+        for v in [None] + list(range(-2, 19)):
+            n += 1
+            r = call('_set_at_round', v)
+            want = ('ok', 15) if v is None else (('ok', v) if 0 <= v <= 15 else ('raise',))
+            if r[:len(want)] != want:
+                probs.append(f'at_round={v}: {"accepted as " + str(r[1]) if r[0] == "ok" else "refused"}; documented: {"round 15 (the last)" if v is None else ("accepted unchanged" if 0 <= v <= 15 else "refused")}')
+        for v in range(-2, nsteps + 2):
+            n += 1
+            r = call('_set_after_step', v)
+            want = ('ok', v) if 0 <= v < nsteps else ('raise',)
+            if r[:len(want)] != want:
+                probs.append(f'after_step={v}: {"accepted as " + str(r[1]) if r[0] == "ok" else "refused"}; {nsteps} steps are defined (0..{nsteps - 1})')
+        for klen in (8, 16, 24, 128, 256, 384):
+            last = 0 if klen in (8, 128) else 2
+            key = cf.Sym('key', attrs={'shape': (cf.Sym('n'), klen), 'ndim': 2})
+            for v in [None] + list(range(-1, 5)):
+                n += 1
+                r = call('_set_at_des', v, key)
+                want = ('ok', last) if v is None else (('ok', v) if 0 <= v <= last else ('raise',))
+                if r[:len(want)] != want:
+                    probs.append(f'at_des={v} with a {klen}-byte key: {"accepted as " + str(r[1]) if r[0] == "ok" else "refused"}; documented: '
+                                 f'{"pass " + str(last) + " (the last of that key type)" if v is None else ("accepted unchanged" if 0 <= v <= last else "refused")}')
+    except cf.Unknown as e:
+        und = str(e)
+    key_ = f'{pc.key}::stop-point arguments'
+    if und:
+        ctx.undecided('C06-D8', key_, f'setters not evaluable: {und}', pc.mod.relpath)
+    else:
+        ctx.check(not probs, 'C06-D8', key_, f'{probs[0] if probs else ""} ({len(probs)} of {n} argument values differ)', f'{n} argument values: accepted / defaulted / refused as documented', pc.mod.relpath, values=n)
+    last_step = max(steps, key=lambda k: steps[k])
+    for fname in ('encrypt', 'decrypt'):
+        f = prog.need_func(D, fname)
+        a = f.node.args
+        ps = [x.arg for x in a.args]
+        dflt = dict(zip(ps[len(ps) - len(a.defaults):], a.defaults))
+        d = dflt.get('after_step')
+        ctx.check(d is not None and norm(d).split('.')[-1] == last_step, 'C06-D8', f'{f.key}::default after_step', f'{fname} stops after `{norm(d) if d is not None else None}` by default, not after the last step '
+                  f'({last_step}): a plain {fname}(data, key) is not the complete cipher', f'default after_step = Steps.{last_step}', f.where())
+        ctx.check(isinstance(dflt.get('at_round'), ast.Constant) and dflt['at_round'].value is None and isinstance(dflt.get('at_des'), ast.Constant) and dflt['at_des'].value is None, 'C06-D8',
+                  f'{f.key}::default at_round / at_des', f'{fname} does not default at_round and at_des to None (the last round of the last pass)', 'at_round and at_des default to None', f.where())
+    return n
+
+
 def private_calls_only(prog, f):
     """number of call sites of the private function f in its module when every reference to its name is such a call (0 otherwise:
     a reference that is not a call - stored in a table, passed on - could be invoked with any argument)"""
@@ -737,6 +803,8 @@ def run(ctx, prog):
     ctx.floor('byte validator cases', byte_validator(ctx, prog, 'C06-D7'), 100)
     ctx.floor('buffer allocations judged (des)', buffer_dtypes(ctx, prog, D, 'C06-D2'), 3)
     n5 = d5(ctx, prog, ci)
+    ctx.rule('C06-D8', 'stop-point arguments: at_round / after_step / at_des accepted, defaulted and refused exactly as documented (setters interpreted over their whole domains); encrypt / decrypt default to the complete cipher')
+    ctx.floor('stop-point argument values interpreted', stop_point_domain(ctx, prog), 60)
     n6 = d6(ctx, prog, D, 'C06-D6')
     ctx.floor('permutation output bits decided', nbits, 64 + 64 + 48 + 32 + 32)
     ctx.floor('template x stop-step terms', n3, 40)
